@@ -112,6 +112,11 @@ func c03(r *ev.Result, tier string) {
 		maxLen = 6
 	}
 	runTermSeam(r, "c03", maxLen, "c03term")
+	/* The operator's locale: chunks that end inside a multi-byte character
+	are output like any other, also when the locale says UTF-8. */
+	for _, loc := range [][]string{{"LANG=en_US.UTF-8"}, {"LC_ALL=C.UTF-8", "LANG=C"}} {
+		runTermSeamEnv(r, "c03u", maxLen, "c03term", loc)
+	}
 	r.Rule += fmt.Sprintf("; plus the terminal seam: every sequence of <=%d items over {plain chunk, chunk without newline, multi-line chunk, chunk with CR LF, a chunk that repeats byte for byte, close-style notice, status line} through the real opshell.Shell on a pty, delivered stepwise, as a burst, and as a backlog queued before the Shell starts reading; the terminal (ANSI sequences removed) must equal the CR-LF translation of the plain chunks and the notices, in order", maxLen)
 	r.Assume("Ctrl+O muting is C19's subject; goxterm's own LF->CRLF translation in raw mode is the only permitted difference between the channel and the terminal")
 }
